@@ -23,7 +23,7 @@ ASSUMPTIONS = [
     'array pressure profiles: the hydrostatic clauses are asserted when the levels the code derives from the array are strictly decreasing (the statement quantifies over decreasing levels)',
     'rtol 1e-10 on altitude/gravity/scale height against the pure-python reference',
 ]
-REQUIRED = {'part:function': 0.2, 'part:model-simple': 0.2, 'part:model-array': 0.1, 'layers:1': 0.01}
+REQUIRED = {'part:function': 0.2, 'part:model-simple': 0.2, 'part:model-array': 0.08, 'layers:1': 0.01}
 
 MJUP = 1.2668653e17 / 6.6743e-11
 RJUP = 71492000.0
@@ -31,7 +31,7 @@ RJUP = 71492000.0
 
 @st.composite
 def _case(draw):
-    part = draw(st.sampled_from(['model-simple', 'function', 'model-array', 'function', 'model-simple']))
+    part = draw(S.pick(['model-simple', 'function', 'model-array', 'function', 'model-simple']))
     c = {'part': part}
     if part == 'function':
         n = draw(st.sampled_from([1, 2, 3, 5, 7, 12, 30, 64, 100, 200]))
